@@ -257,17 +257,32 @@ Qed.
 (* reset(seed, options) plumbing made visible: after vec_env.reset(seed=z, options={"opt": o}) the
    observation of sub-environment i carries z + i (feature 1 = base + episode) and its info carries o *)
 Theorem reset_plumbing_lemma E s seed opt a :
-  a < nag E ->
+  a < nag E -> joins_late E a = false ->
   let r := env_reset E s (seed, opt) in
   base (fst r) = match seed with Some z => z | None => base s end /\
   info_in (snd (snd r)) a 2 = opt.
 Proof.
-  intros Ha. unfold env_reset. cbn [fst snd base live]. split; [reflexivity|].
+  intros Ha Hj. unfold env_reset. cbn [fst snd base live]. split; [reflexivity|].
   unfold info_in.
   match goal with |- context[map (fun b => (b, reset_info ?st b ?o)) ?L] =>
-    rewrite (lookup_map_In (fun b => reset_info st b o) L a) by (apply in_seq; lia) end.
+    rewrite (lookup_map_In (fun b => reset_info st b o) L a)
+      by (apply filter_In; split; [apply in_seq; lia | rewrite Hj; reflexivity]) end.
   destruct opt; reflexivity.
 Qed.
 
 Lemma vec_init_wf k agents Es : wf_vstate (length Es) k agents (vec_init k agents Es).
 Proof. apply (g_vec_init_wf init_state). Qed.
+
+(* an agent that joins late is not in the dicts returned by reset: the vector environment shows the
+   placeholder observation for it until it appears *)
+Theorem late_joiner_placeholder_lemma E agents s ra a :
+  In a agents -> joins_late E a = true ->
+  get a (fst (snd (worker_reset E agents s ra))) [] = placeholder_obs (kind E) /\
+  has_agent (snd (snd (env_reset E s ra))) a = false.
+Proof.
+  intros Ha Hj. unfold worker_reset, g_worker_reset, env_reset, get, has_agent. cbn [fst snd live].
+  rewrite (fill_lookup agents _ _ a Ha).
+  assert (Hn : ~ In a (filter (fun a0 => negb (joins_late E a0)) (seq 0 (nag E)))).
+  { intros H. apply filter_In in H as [_ H]. rewrite Hj in H. discriminate. }
+  rewrite !(lookup_map_notIn _ _ a Hn). auto.
+Qed.
